@@ -75,7 +75,9 @@ def _dyn(draw, big):
             "route": draw(st.sampled_from(["ctor", "ctor", "aggregate", "manual-sbi-in-units"])),
             # (uncoupled sites) the sites are coupled when the propagator is created and used once; the coupling is
             # then removed from the Hamiltonian object and the same propagator is used again
-            "decouple_after": draw(st.sampled_from([0, 0, 0, 90, -140]))}
+            "decouple_after": draw(st.sampled_from([0, 0, 0, 90, -140])),
+            # the caller propagates while other energy units are current
+            "prop_units": draw(st.sampled_from([None, None, None, "1/cm", "eV", "THz"]))}
 
 
 def strategy(tier):
@@ -160,7 +162,7 @@ def _index(case, ctx):
               rtol=1e-12, scale=max(1e-9, depth * float(numpy.max(gam))), where=where)
 
 
-def _propagate(qr, agg, depth, ta, rho0, route="ctor", spec=None, decouple=0):
+def _propagate(qr, agg, depth, ta, rho0, route="ctor", spec=None, decouple=0, units=None):
     from quantarhei.qm.liouvillespace.heom import KTHierarchy, KTHierarchyPropagator
     ham = agg.get_Hamiltonian()
     sbi = agg.get_SystemBathInteraction()
@@ -192,7 +194,11 @@ def _propagate(qr, agg, depth, ta, rho0, route="ctor", spec=None, decouple=0):
         prop.propagate(qr.ReducedDensityMatrix(data=rho0.copy()))
         with qr.energy_units("1/cm"):
             ham.remove_cutoff_coupling(abs(float(decouple)) + 1.0)
-    rt = prop.propagate(qr.ReducedDensityMatrix(data=rho0.copy()))
+    if units:
+        with qr.energy_units(units):
+            rt = prop.propagate(qr.ReducedDensityMatrix(data=rho0.copy()))
+    else:
+        rt = prop.propagate(qr.ReducedDensityMatrix(data=rho0.copy()))
     return numpy.array(rt.data)
 
 
@@ -226,6 +232,9 @@ def _dynamics(case, ctx):
                   where=tag)
 
     route = case.get("route", "ctor")
+    pu = case.get("prop_units")
+    if pu:
+        ctx.label("propagated-in-units:" + pu)
     ctx.label("route:" + route, "ground!=0" if spec.get("ground") and any(spec["ground"]) else "ground=0")
     if route == "aggregate":
         # the aggregate's own interface, asked for several depths in a row (a convergence study on one object): every
@@ -241,7 +250,7 @@ def _dynamics(case, ctx):
                 return
     if kind in ("b", "c"):
         depth = case["depth"]
-        ok, data = guarded(ctx, "dynamics/propagate", lambda: _propagate(qr, agg, depth, ta, rho0, route, spec=spec), kind)
+        ok, data = guarded(ctx, "dynamics/propagate", lambda: _propagate(qr, agg, depth, ta, rho0, route, spec=spec, units=pu), kind)
         if not ok:
             return
         if data.shape != (nt, n + 1, n + 1):
@@ -285,8 +294,8 @@ def _dynamics(case, ctx):
                 Jc = [[0] * n for _ in range(n)]
                 Jc[0][1] = Jc[1][0] = decouple
                 a = gens.make_aggregate(qr, dict(spec, J=Jc))
-                return _propagate(qr, a, depth, ta, rho0, "ctor", decouple=decouple)
-            return _propagate(qr, agg, depth, ta, rho0, route, spec=spec)
+                return _propagate(qr, a, depth, ta, rho0, "ctor", decouple=decouple, units=pu)
+            return _propagate(qr, agg, depth, ta, rho0, route, spec=spec, units=pu)
         ok, data = guarded(ctx, "dynamics/propagate", one_depth, "d" + ("/decoupled-after-first-use" if decouple else ""))
         if not ok:
             return
